@@ -69,7 +69,14 @@ impl Locator {
                 if let Some(a) = map.item(i) {
                     use xml_dom::Attr;
                     let nm = a.node_name();
-                    let p = format!("{}/@{}", path, e(local(&nm)));
+                    // two attributes of one element may share their local part (p:n and n): the path names the prefix too
+                    use xml_dom::AsExpandedName;
+                    let shown_name = match a.as_expanded_name() {
+                        // (the library reports the pseudo-prefix `xmlns` for an unprefixed attribute)
+                        Ok(Some((l, Some(pfx), _))) if pfx != "xmlns" => format!("{}:{}", pfx, l),
+                        _ => local(&nm).to_string(),
+                    };
+                    let p = format!("{}/@{}", path, e(&shown_name));
                     let id = a.as_node().id();
                     if id != 0 {
                         self.by_id.entry(id).or_insert(p.clone());
